@@ -47,6 +47,19 @@ func dlPlain(kind string, l int, seed uint64) []byte {
 			t := byte(0x5e)
 			o.T3512 = &t
 		}
+		// one-octet IEs, any of which may be the last octet of the message
+		if r.Intn(3) == 0 {
+			v := byte(r.Intn(4))
+			o.MICO = &v
+		}
+		if r.Intn(3) == 0 {
+			v := byte(r.Intn(4))
+			o.NetSlicing = &v
+		}
+		if r.Intn(3) == 0 {
+			v := byte(r.Intn(4))
+			o.NSSAIInclusion = &v
+		}
 		return nas.RegistrationAccept(o)
 	case "cuc":
 		var ind *byte
@@ -214,6 +227,10 @@ func runDLHistory(hi int, h hmap) {
 			if !reflect.DeepEqual(got.GmmMessage, want.GmmMessage) || !reflect.DeepEqual(got.GsmMessage, want.GsmMessage) {
 				ge, _ := got.PlainNasEncode()
 				fail("dl.message", "recovered message differs from the one the AMF protected (%s, %d octets): re-encodes as %x, sent %x", str(msg, "kind"), len(plain), ge, plain)
+			} else if ge, eerr := got.PlainNasEncode(); eerr != nil || !bytes.Equal(ge, plain) {
+				// the pool holds canonical encodings only: what the UE recovered must encode back to the
+				// octets the AMF protected (a field the decoder dropped shows here)
+				fail("dl.message-lossy", "the recovered %s message encodes as %x (err %v), the AMF protected %x", str(msg, "kind"), ge, eerr, plain)
 			}
 		}
 		for _, hm := range held {
